@@ -67,6 +67,12 @@ LEVEL_TEXT += (
     "vertex named by coordinates is invariant under translation and "
     "unit (helper methods of the mesh are evaluated interprocedurally, "
     "one level).")
+LEVEL_TEXT += (
+    " Added after review R7: a tag given as a list or a tuple is made an "
+    "array by the helper through which tags are stored "
+    "(sequence-stored-as-array); the round-off floor of the tolerance for "
+    "a vertex named by coordinates is that of the named point, not of the "
+    "whole mesh (point-predicate:round-off-of-the-point).")
 LEVEL_NOTE = ("Trusted: numpy unique/concatenate/intersect1d/union1d/"
               "setdiff1d semantics; connectivity tables are coherent (C11).")
 EXPLANATION = "Provenance-tagged symbolic runs of the DOF query code."
